@@ -935,6 +935,8 @@ def _emit_fn(g, source, a, blocks, vacuity, probe_insert=None):
                 body = insert_after_pattern(body, ia["arm_start"], txt, f.name, nth=nth, arm_start=True)
             elif "block_end_of" in ia:
                 body = insert_after_pattern(body, ia["block_end_of"], txt, f.name, nth=nth, block_end_of=True)
+            elif "after_block_of" in ia:
+                body = insert_after_pattern(body, ia["after_block_of"], txt, f.name, nth=nth, after_block_of=True)
             else:
                 body = insert_after_pattern(body, ia["before"], txt, f.name, before=True, nth=nth)
         except ExtractError:
